@@ -57,6 +57,28 @@ theorem C18_stack_restored (sys : Sys P) (hid : ∀ v p, sys.ckey v p = p) (n : 
   · rfl
   · rw [run_error_no_store sys hid n s k.1 k.2 er g s₁ hrun]; exact hl
 
+/-- The same for variable-ranked systems with ANY storage key — eternal variables, whose values
+    are stored under ETERNITY whatever the period requested, included: nothing is recorded under
+    the storage slot of the failed node, and no slot of a higher-ranked variable is written. -/
+theorem C18_no_partial_store_ranked (sys : Sys P) (rk : Nat → Nat) (hr : VarRanked sys rk) (n : Nat) (s : St P)
+    (v : Nat) (p : P) (er : Err) (g : Bool) (s' : St P) (h : run sys n s v p = some (.error er, g, s')) :
+    lookup s'.cache (sys.slot (v, p)) = lookup s.cache (sys.slot (v, p)) ∧ s'.stack = s.stack ∧
+    ∀ k : Node P, rk v < rk k.1 → lookup s'.cache k = lookup s.cache k :=
+  ⟨run_error_no_store_ranked sys rk hr n s v p er g s' h, run_stack sys n s v p _ g s' h,
+   run_touches_ranked sys rk hr n s v p _ g s' h⟩
+
+/-- … and at top level -/
+theorem C18_stack_restored_ranked (sys : Sys P) (rk : Nat → Nat) (hr : VarRanked sys rk) (n : Nat) (s : St P)
+    (hs : s.stack = []) (k : Node P) (hl : lookup s.cache (sys.slot k) = none) (er : Err) (g : Bool) (s' : St P)
+    (h : request sys n s k = some (.error er, g, s')) :
+    s'.stack = [] ∧ s'.inval = [] ∧ lookup s'.cache (sys.slot k) = none := by
+  obtain ⟨h1, h2, s₁, hrun, h3⟩ := C02_stack_and_purge sys n s hs k _ g s' h
+  refine ⟨h1, h2, ?_⟩
+  rw [h3 (sys.slot k)]
+  split
+  · rfl
+  · rw [run_error_no_store_ranked sys rk hr n s k.1 k.2 er g s₁ hrun]; exact hl
+
 /-- Values completed before (and during) a failed request remain correct: the ghost-clean
     invariant survives failures, for all systems … -/
 theorem C18_completed_remain_consistent (sys : Sys P) (hk : SlotCoherent sys) (n : Nat) (s : St P) (hc : GClean sys s.cache)
@@ -108,5 +130,25 @@ example : request (faultySys true) 5 St.init (1, 0) = some (.error .fault, false
   · simp [request, run, runE, faultySys, lookup, store, purge, St.init, Sys.slot]
   · refine ⟨rfl, rfl, rfl, rfl, rfl, rfl, ?_⟩
     intro id h; simp [faultySys] at h
+
+/-- the same rules with every value stored under one key per variable (all variables "eternal"):
+    the hypotheses of the ranked statements are met and a failed request for ANY period leaves
+    the variable's storage slot empty -/
+def faultyEternalSys (armed : Bool) : Sys Nat := { faultySys armed with ckey := fun _ _ => 0 }
+
+example : VarRanked (faultyEternalSys true) (fun v => v) ∧
+    request (faultyEternalSys true) 5 St.init (1, 3) = some (.error .fault, false, St.init) ∧
+    lookup (St.init : St Nat).cache ((faultyEternalSys true).slot (1, 3)) = none := by
+  refine ⟨?_, ?_, rfl⟩
+  · intro v p e hf k hk
+    by_cases hv : v = 1
+    · subst hv
+      simp [faultyEternalSys, faultySys] at hf
+      subst hf
+      simp [refs] at hk
+      subst hk
+      simp
+    · simp [faultyEternalSys, faultySys, hv] at hf
+  · simp [request, run, runE, faultyEternalSys, faultySys, lookup, purge, St.init, Sys.slot]
 
 end OFCore
